@@ -306,6 +306,15 @@ def state_fingerprint(menu, hist):
 def check_state(menu, hist, r, use_probes, prop, check_config=True):
     """apply the last op of hist to the state reached by hist[:-1] and evaluate the oracle in the new state"""
     ctx, model, obs = replay(menu, hist)
+    # references are computed on a *restored* library; make sure they exist before the state is examined, and rebuild
+    # the state if computing them disturbed it (only on the first use of a table in this worker)
+    n0 = len(_REF)
+    if check_config:
+        ref_alphabet(model.table)
+    if use_probes:
+        ref_probe(model.table)
+    if len(_REF) != n0:
+        ctx, model, obs = replay(menu, hist)
     names = [menu[i].name for i in hist]
     case = {"history": names}
     ok = True
